@@ -133,11 +133,12 @@ class CsrShape:
     strlen: int = 2
     alg: int = 5
     sign_fails: bool = False
+    attr_req: int = 0
 
     def rust(self, oracles):
         b = lambda v: "true" if v else "false"
         return (f"csr::CsrShape {{ san: {arr(self.san)}, ku: {self.ku}, eku: {arr(self.eku)}, custom: {self.custom}, custom_crit: {self.custom_crit}, "
-                f"attrs: {self.attrs}, strlen: {self.strlen}, alg: {self.alg}, sign_fails: {b(self.sign_fails)}, oracles: {oracles} }}")
+                f"attrs: {self.attrs}, attr_req: {self.attr_req}, strlen: {self.strlen}, alg: {self.alg}, sign_fails: {b(self.sign_fails)}, oracles: {oracles} }}")
 
     def key(self):
         parts = []
@@ -146,6 +147,7 @@ class CsrShape:
         if self.eku: parts.append("eku" + "".join(str(x) for x in self.eku))
         if self.custom: parts.append(f"cx{self.custom}c{self.custom_crit}")
         if self.attrs: parts.append(f"at{self.attrs}")
+        if self.attr_req: parts.append("atreq")
         if self.strlen != 2: parts.append(f"sl{self.strlen}")
         if self.alg != 5: parts.append(f"a{self.alg}")
         if self.sign_fails: parts.append("fail")
@@ -158,6 +160,7 @@ class CsrShape:
         if self.eku: d.append("EKU[" + ",".join(EKU_NAMES[x] for x in self.eku) + "]")
         if self.custom: d.append(f"{self.custom} custom ext (critical mask {self.custom_crit:#b})")
         d.append(f"{self.attrs} caller attribute(s)")
+        if self.attr_req: d.append("plus a caller attribute of type extensionRequest (SET { SEQUENCE {} })")
         d.append(f"strings {self.strlen}B; key alg {ALG_NAMES[self.alg]}")
         if self.sign_fails: d.append("signer fails")
         return "CSR: " + "; ".join(d)
